@@ -3,7 +3,7 @@
 A *case* is a plain dict (JSON-able, sufficient for replay):
 
     {'callable': function|method|callback|vfunc|vfunc_inv|signal,
-     'layout':   0|1         (site parameter first / site parameter last)
+     'layout':   0|1         (site parameter first / site parameter last); 2|3 = same with `guint *n`
      'site':     'p' | 'ret' | 'self',
      'kind':     <type kind id>,
      'anns':     ['transfer full', 'array length=n', ...]}   # text between the parentheses
@@ -29,6 +29,7 @@ KINDS = {
     'str':        ('char*', 'str', 1, None),
     'cstr':       ('const char*', 'str', 1, 'gchararray'),
     'any':        ('gpointer', 'any', 1, 'gpointer'),
+    'anyp':       ('gpointer*', 'any', 1, None),
     'rec':        ('FooRec*', 'rec', 1, None),
     'recpp':      ('FooRec**', 'rec', 2, None),
     'enum':       ('FooEnum', 'enum', 0, None),
@@ -51,9 +52,9 @@ KINDS = {
     'cbal':       ('FooCbAlias', 'callback', 0, None),
     'enumal':     ('FooEnumAlias', 'enum', 0, None),
 }
-# alias kind -> kind of the direct spelling (violation keys fold an alias kind into its base kind when both fail)
-ALIAS_OF = {'recal': 'rec', 'recal2': 'rec', 'recalpp': 'recpp', 'cbal': 'cb', 'enumal': 'enum'}
-KIND_ORDER = ['int', 'intp', 'str', 'cstr', 'any', 'rec', 'recpp', 'enum', 'list', 'hash', 'garray',
+# alias kind (or pointer-to variant) -> kind of the direct spelling (violation keys fold an alias kind into its base kind when both fail)
+ALIAS_OF = {'anyp': 'any', 'recal': 'rec', 'recal2': 'rec', 'recalpp': 'recpp', 'cbal': 'cb', 'enumal': 'enum'}
+KIND_ORDER = ['int', 'intp', 'str', 'cstr', 'any', 'anyp', 'rec', 'recpp', 'enum', 'list', 'hash', 'garray',
               'ptrarray', 'bytearray', 'strv', 'cb', 'dnotify', 'obj', 'variant', 'unres',
               'recal', 'recal2', 'recalpp', 'cbal', 'enumal']
 CONTAINER_CATS = ('list', 'hash', 'garray', 'ptrarray', 'bytearray')
@@ -103,6 +104,21 @@ SELF_MENU = (TRANSFER + ['in'] + NULLFAM + ['skip'] + SCOPE[:1] + CLOSURE[:2] + 
              + OTHER[1:] + ['transfer bogus'])
 
 
+def site_anns(case):
+    return [a for a in case['anns'] if not a.startswith('@')]
+
+
+def n_anns(case):
+    """annotations written on the length parameter n ('@n optional' -> 'optional')"""
+    return [a[3:] for a in case['anns'] if a.startswith('@n ')]
+
+
+# kinds on which (array length=n) is valid, used for the length-parameter family
+LEN_KINDS = ['intp', 'strv', 'rec', 'ptrarray']
+LEN_ARRAYS = [['array length=n'], ['out', 'array length=n'], ['inout', 'array length=n']]
+LEN_ANNS = ['@n optional', '@n nullable', '@n not optional', '@n skip', '@n transfer none']
+
+
 def ann_name(a):
     return a.split()[0]
 
@@ -133,10 +149,15 @@ def kind_ok(callable_, site, kind):
 def param_list(case):
     """[(ctype, name)] of the callable after the instance parameter."""
     site, kind, layout = case['site'], case['kind'], case['layout']
+    neigh = list(NEIGH)
+    if layout >= 2:
+        # layouts 2/3 = layouts 0/1 with the length candidate declared as a pointer (guint *n), used for
+        # annotations written on the length parameter itself ('@n ...' entries of case['anns'])
+        neigh[0] = ('guint*', 'n')
     if site == 'p':
         sp = (KINDS[kind][0], 'p')
-        return [sp] + NEIGH if layout == 0 else NEIGH + [sp]
-    return list(NEIGH)
+        return [sp] + neigh if layout % 2 == 0 else neigh + [sp]
+    return neigh
 
 
 def ret_type(case):
@@ -226,11 +247,12 @@ BLOCK_LINE = 100
 def render_block(case, annotated):
     """-> (comment text, {site name: line number of its comment line})"""
     decls, dump, bname, names = build(case)
-    anns = ' '.join('(%s)' % a for a in case['anns']) if annotated else ''
+    anns = ' '.join('(%s)' % a for a in site_anns(case)) if annotated else ''
+    nanns = ' '.join('(%s)' % a for a in n_anns(case)) if annotated else ''
     lines = ['/**', ' * %s:' % bname]
     where = {}
     for n in names:
-        a = anns if n == case['site'] else ''
+        a = anns if n == case['site'] else (nanns if n == 'n' else '')
         where[n] = BLOCK_LINE + len(lines)
         lines.append(' * @%s:%s d_%s' % (n, (' ' + a + ':') if a else '', n))
     lines.append(' *')
